@@ -43,7 +43,7 @@ type compiled struct {
 
 // compileOnce compiles pkg of the bundle on a fresh PackageSet under recover() and a deadline.
 func compileOnce(content map[string]string, pkg string) compiled {
-	return withDeadline(func() compiled {
+	return withDeadline(map[string]any{"files": content, "package": pkg, "call": "CompilePackage on a fresh PackageSet"}, func() compiled {
 		var c compiled
 		func() {
 			defer func() {
@@ -57,13 +57,14 @@ func compileOnce(content map[string]string, pkg string) compiled {
 	})
 }
 
-func withDeadline(f func() compiled) compiled {
+func withDeadline(input any, f func() compiled) compiled {
 	ch := make(chan compiled, 1)
 	go func() { ch <- f() }()
 	select {
 	case c := <-ch:
 		return c
 	case <-time.After(20 * time.Second):
+		abortOnHang("compile", input)
 		return compiled{TimedOut: true}
 	}
 }
@@ -103,6 +104,7 @@ func lintOnce(content map[string]string, filename string) linted {
 	case l := <-ch:
 		return l
 	case <-time.After(20 * time.Second):
+		abortOnHang("LintFile", map[string]any{"files": content, "file": filename})
 		return linted{TimedOut: true}
 	}
 }
@@ -133,6 +135,7 @@ func lintAllOnce(content map[string]string) linted {
 	case l := <-ch:
 		return l
 	case <-time.After(20 * time.Second):
+		abortOnHang("LintAll", map[string]any{"files": content})
 		return linted{TimedOut: true}
 	}
 }
